@@ -34,7 +34,8 @@ TRUSTED = [
 ]
 
 DRIVERS = {
-    "kb": {"kind": "gotest", "pkg": "services/keep-balance", "test": "TestVerifC06", "min_chunk": 8},
+    "kb": {"kind": "gotest", "pkg": "services/keep-balance", "test": "TestVerifC06", "min_chunk": 8,
+           "isolate": True, "case_timeout": 120},
     "arv": {"kind": "gotest", "pkg": "sdk/go/arvados", "test": "TestVerifC06", "min_chunk": 20},
     "kc": {"kind": "gotest", "pkg": "sdk/go/keepclient", "test": "TestVerifC06", "min_chunk": 20},
     "ks": {"kind": "gotest", "pkg": "services/keepstore", "test": "TestVerifC06"},
@@ -448,6 +449,9 @@ def oracle(case, impl):
             return "malformed trace"
         trace, outcome = impl.rsplit("=", 1)
         evs = trace.split("|") if trace else []
+        if outcome == "runaway":
+            return ("scan neither completed nor failed: it kept requesting pages beyond the bound of "
+                    "C06_paging_progress on a table that had stopped changing")
         if outcome != "ok":
             return None
         nreq = sum(1 for e in evs if e.startswith("q:"))
